@@ -16,7 +16,93 @@ def run(ctx):
     r10a(ctx)
     r10b(ctx)
     r10e(ctx)
+    r10f(ctx)
     r10c(ctx)
+
+
+def _admissible_sizes(f):
+    """the parameter-check prefix of a Rabin operation as a predicate over bits(m): leading declarations with evaluable
+    initialisers, assert(c) and `if (c) return false;` statements, up to the first allocation or computation; returns the
+    function b -> bool (evaluated with evalx, unsigned wrap-around included) and the number of conditions"""
+    from .. import evalx
+    conds = []
+    decls = []
+    for st in f['body']['s']:
+        k = st.get('k')
+        if k == 'decl':
+            stop = False
+            for v in st['v']:
+                ini = v.get('init')
+                if isinstance(ini, dict) and ini.get('k') == 'new':
+                    stop = True
+                    break
+                decls.append(v)
+            if stop:
+                break
+            continue
+        if k == 'assert':
+            conds.append(('pos', st.get('c') or st.get('e'), decls[:]))
+            continue
+        if k == 'if' and st.get('e') is None:
+            t = st.get('t')
+            while isinstance(t, dict) and t.get('k') == 'block' and len(t['s']) == 1:
+                t = t['s'][0]
+            if isinstance(t, dict) and t.get('k') == 'return' and isinstance(t.get('e'), dict) and t['e'].get('k') == 'bool' and not t['e'].get('v'):
+                conds.append(('neg', st['c'], decls[:]))
+                continue
+        break
+
+    def pred(b):
+        def call(e, env):
+            if e.get('k') == 'call' and e.get('f') == 'mpz_sizeinbase':
+                return b
+            raise evalx.NotEvaluable('call')
+        for pol, c, ds in conds:
+            env = {}
+            for v in ds:
+                if v.get('init') is None:
+                    continue
+                try:
+                    env[v['id']] = evalx.wrap(evalx.ev(v['init'], env, call), v.get('t'))
+                except evalx.NotEvaluable:
+                    pass
+            val = bool(evalx.ev(c, env, call))
+            if (pol == 'pos' and not val) or (pol == 'neg' and val):
+                return False
+        return True
+    return pred, len(conds)
+
+
+def r10f(ctx):
+    """encrypt and decrypt agree on the admissible key sizes: the parameter checks at the head of TMCG_PublicKey::encrypt
+    (assertions) and of TMCG_SecretKey::decrypt (refusals) are evaluated as predicates over bits(m) for every size 0..8192
+    (finite-domain evaluation with the declared unsigned widths) -- a size that encrypt serves and decrypt refuses means that
+    every genuine ciphertext of such a key is refused"""
+    from .. import evalx
+    prog = ctx.prog
+    enc = prog.fn('TMCG_PublicKey::encrypt', 0)
+    dec = prog.fn('TMCG_SecretKey::decrypt', 0)
+    try:
+        pe, ne = _admissible_sizes(enc)
+        pd, nd = _admissible_sizes(dec)
+        diff = None
+        for b in range(0, 8193):
+            if pe(b) != pd(b):
+                diff = (b, pe(b), pd(b))
+                break
+    except evalx.NotEvaluable as ex:
+        ctx.note('R10f', 'R10f:encrypt<->decrypt:sizes', 'parameter checks not evaluable: %s' % ex, dec)
+        ctx.floor('R10f', 0, 1)
+        return
+    if ne == 0 or nd == 0:
+        ctx.note('R10f', 'R10f:encrypt<->decrypt:sizes', 'no parameter-check prefix recognised (encrypt %d, decrypt %d conditions)' % (ne, nd), dec)
+    elif diff:
+        ctx.bad('R10f', 'R10f:encrypt<->decrypt:sizes', 'encrypt and decrypt disagree on the admissible modulus sizes: for a %d-bit modulus encrypt %s and decrypt %s '
+                '(first of the sizes 0..8192 where they differ): genuine ciphertexts of such keys are refused' % (
+                    diff[0], 'proceeds' if diff[1] else 'asserts', 'proceeds' if diff[2] else 'refuses'), dec)
+    else:
+        ctx.ok('R10f', 'R10f:encrypt<->decrypt:sizes', 'the %d assertions of encrypt and the %d refusals of decrypt admit the same modulus sizes (0..8192 bits evaluated)' % (ne, nd), dec)
+    ctx.floor('R10f', 1, 1)
 
 
 def r10e(ctx):
